@@ -187,7 +187,9 @@ def read_assumptions(vfile):
         return []
     names = []
     for line in txt.split("\n"):
-        m = re.match(r"^([A-Za-z_][\w.']*)\s*:", line)
+        if not line or line[0].isspace() or line.startswith("Axioms:"):
+            continue
+        m = re.match(r"^([A-Za-z_][\w.']*)", line)
         if m:
             names.append(m.group(1))
     return names
@@ -368,6 +370,13 @@ class Ctx:
             self.oblige(v, kind, good, detail)
             res[v] = good
         return res
+
+    def build_models(self, targets, timeout=900):
+        """executable model instances needed by the correspondence (e.g. model/FooQ.vo)"""
+        ok, log = coq_make(targets, timeout=timeout)
+        for t in targets:
+            self.oblige("executable model builds: " + t, "model-build", ok[t], "" if ok[t] else log[-1500:])
+        return all(ok.values())
 
     def coqchk(self, timeout=1800):
         """thorough tier: re-check the property's compiled theorems with coqchk."""
